@@ -4,10 +4,13 @@ Each test: pkg (harness/props/<pkg>), name (Go test function), mode (rapid | pla
 quick/thorough: shards, checks (rapid cases per shard), timeout (s per shard), env.
 """
 
-def rapid(pkg, name, q, t, **kw):
+def rapid(pkg, name, q, t, steps=None, **kw):
     d = dict(pkg=pkg, name=name, mode="rapid",
              quick=dict(shards=q[0], checks=q[1], timeout=q[2] if len(q) > 2 else 600),
              thorough=dict(shards=t[0], checks=t[1], timeout=t[2] if len(t) > 2 else 3600))
+    if steps:
+        d["quick"]["steps"] = steps
+        d["thorough"]["steps"] = steps
     d.update(kw)
     return d
 
@@ -23,6 +26,11 @@ def plain(pkg, name, q, t, **kw):
 
 
 PROPS = {
+    "C20": dict(level="exploration", tests=[
+        rapid("c20", "TestC20Queue", (16, 20000, 300), (16, 1000000, 3600), steps=60),
+        plain("c20", "TestC20SeqBoundary", (1, 60), (1, 60)),
+        plain("c20", "TestC20ForwardPromotes", (1, 60), (1, 60)),
+    ]),
     "C11": dict(level="exploration", tests=[
         rapid("c11", "TestC11Pool", (16, 60000, 300), (16, 3000000, 3600)),
         plain("c11", "TestC11Exhaustive", (16, 300), (16, 3600)),
